@@ -38,6 +38,8 @@ func checkC09(c *Check, a *Anchors) {
 	c09StableSort(c, a)
 	c09GoroutineAppends(c, a)
 	mergeSourcesReadOnly(c, a, "merge-sources-read-only")
+	c08IncludeBase(c, a) // a file is one vertex however often it is included; a base that depends on the including node depends on which include read it first
+	orderedRebuildSinglePass(c, a, "ordered-rebuild-single-pass")
 }
 
 func loadPhaseRoots(c *Check, a *Anchors) []*FuncBody {
@@ -87,6 +89,13 @@ func c09MapRanges(c *Check, a *Anchors) {
 			k := fnDisplay(fb) + "|" + types.TypeString(tv.Type, shortQual)
 			reason := mapRangeTable[k]
 			key := ordinal(ord, k)
+			if reason != "" && strings.Contains(reason, "DISTINCT") {
+				// the reason given for this loop is a claim about the loop body: decide it
+				if why := distinctTargets(info, r); why != "" {
+					c.Bad("map-range-reviewed", key, r.Pos(), "the loop over "+exprStr(r.X)+" is order-insensitive only while each iteration writes to a target of its own, but "+why+": the iterations now write to the same object in Go-map order (the result changes from run to run, and the goroutines of the loop race)")
+					return true
+				}
+			}
 			c.Decide(reason != "", "map-range-reviewed", key, r.Pos(), "reviewed: "+reason,
 				"range over a Go map ("+exprStr(r.X)+") in the load/compile phase that is not in the reviewed table: its iteration order changes from run to run, and whatever is built from it (task order, variable values, command lines) may change with it")
 			return true
@@ -370,4 +379,50 @@ func aliasesMemory(v *types.Var) bool {
 		return true
 	}
 	return false
+}
+
+
+// distinctTargets decides the claim "each iteration of this map loop writes to a target of its own": every Merge/Set call in
+// the loop body has a receiver that is derived from the loop's key or value variable (looked up with it), and no argument of
+// such a call that is written to. Returns "" when the claim holds, otherwise what contradicts it.
+func distinctTargets(info *types.Info, r *ast.RangeStmt) string {
+	var loopVars []*types.Var
+	for _, e := range []ast.Expr{r.Key, r.Value} {
+		if e != nil {
+			if v := varOf(info, e); v != nil && v.Name() != "_" {
+				loopVars = append(loopVars, v)
+			}
+		}
+	}
+	bad := ""
+	ast.Inspect(r.Body, func(m ast.Node) bool {
+		call, ok := m.(*ast.CallExpr)
+		if !ok {
+			return true
+		}
+		fn, ok := callee(info, call).(*types.Func)
+		if !ok || !mutators[fn.Name()] || fn.Pkg() == nil || !strings.HasPrefix(fn.Pkg().Path(), Mod) {
+			return true
+		}
+		sel, ok := ast.Unparen(call.Fun).(*ast.SelectorExpr)
+		if !ok {
+			return true
+		}
+		recv := rootVar(info, sel.X)
+		if recv == nil {
+			bad = "the receiver of " + exprStr(call.Fun) + " is not a variable of the iteration"
+			return true
+		}
+		derived := false
+		for _, lv := range loopVars {
+			if recv == lv || mentionsVia(info, r.Body, sel.X, lv, 2) {
+				derived = true
+			}
+		}
+		if !derived {
+			bad = "the receiver of `" + exprStr(call.Fun) + "` does not depend on the loop variable"
+		}
+		return true
+	})
+	return bad
 }
